@@ -21,6 +21,9 @@
 (*                              without a bucket, inside one bracket; ok = admitted                 *)
 (*   Async  [what]              a spawned `go UnbanIP` ("unban") / `go RemoveFromBlacklist`        *)
 (*                              ("unbl") ran now (only used to name the history shape)            *)
+(*   CleanStart [what], Clean [what]   a clean-up pass ("bf" protector, "ip" IP manager) begins / has   *)
+(*          ended (Clean carries the bracket of the whole pass); Blk [dur] = lifetime of this order in   *)
+(*          ms when it is not cfg.bld                                                                     *)
 (*   MUnban, MUnbl [form], Blk [perm, form, fault], Wl [on, form], Clean [what], Tick   operator    *)
 (*          actions (fault = TRUE: the storage write behind the order failed)                       *)
 (*          and clean-up runs; form = "ip" (entry is the address itself) | "net" (a CIDR range      *)
@@ -58,12 +61,14 @@ VARIABLES cfg,
                      \*       latest blacklist order [k, from, to, born, end]; whitelisted through that form?
           cl,        \* call brackets of the protector's clean-up passes
           lastReload,\* trace line of the last Reload (a fresh IPManager over the same storage), -1: none
+          ipc, ipe,  \* t0 of the IP manager's clean-up pass that is in progress, t1 of the last one that ended (-1: none)
+          bfc,       \* t0 of the protector's clean-up pass that is in progress (-1: none)
           adm,       \* ip -> admitted anonymous registrations [t0, t1]
           refs       \* ip -> answers "banned" [t0, t1], justified at End
-vars == <<l, viol, cfg, fs, sf, lastSucc, lastMU, lastClean, ob, aU, aL, blo, wlst, lastReload, cl, adm, refs>>
+vars == <<l, viol, cfg, fs, sf, lastSucc, lastMU, lastClean, ob, aU, aL, blo, wlst, lastReload, ipc, ipe, bfc, cl, adm, refs>>
 
 NoCfg == [thr |-> 0]
-NoBl == [k |-> "none", from |-> 0, to |-> 0, born |-> 0, end |-> 0, line |-> 0, flt |-> FALSE]
+NoBl == [k |-> "none", from |-> 0, to |-> 0, born |-> 0, end |-> 0, line |-> 0, flt |-> FALSE, cln |-> FALSE]
 \* entry forms covering the address: itself, a narrow and a wide CIDR range (overlapping, independent
 \* lifetimes); "other" = an entry that does not cover the address: no demand follows from it
 FORMS == {"ip", "net", "net2"}
@@ -71,10 +76,10 @@ NoBls == [f \in FORMS |-> NoBl]
 NoWls == [f \in FORMS |-> FALSE]
 Each(v) == [i \in IPS |-> v]
 Reset == /\ cfg' = NoCfg /\ fs' = Each(<<>>) /\ sf' = Each(<<>>) /\ lastSucc' = Each(-1) /\ lastMU' = Each(-1) /\ lastClean' = Each(-1)
-         /\ ob' = Each({}) /\ aU' = Each(<<>>) /\ aL' = Each(<<>>) /\ blo' = Each(NoBls) /\ wlst' = Each(NoWls) /\ lastReload' = -1 /\ cl' = <<>>
+         /\ ob' = Each({}) /\ aU' = Each(<<>>) /\ aL' = Each(<<>>) /\ blo' = Each(NoBls) /\ wlst' = Each(NoWls) /\ lastReload' = -1 /\ ipc' = -1 /\ ipe' = -1 /\ bfc' = -1 /\ cl' = <<>>
          /\ adm' = Each(<<>>) /\ refs' = Each(<<>>)
 Init == /\ l = 1 /\ viol = {} /\ cfg = NoCfg /\ fs = Each(<<>>) /\ sf = Each(<<>>) /\ lastSucc = Each(-1) /\ lastMU = Each(-1) /\ lastClean = Each(-1)
-        /\ ob = Each({}) /\ aU = Each(<<>>) /\ aL = Each(<<>>) /\ blo = Each(NoBls) /\ wlst = Each(NoWls) /\ lastReload = -1 /\ cl = <<>>
+        /\ ob = Each({}) /\ aU = Each(<<>>) /\ aL = Each(<<>>) /\ blo = Each(NoBls) /\ wlst = Each(NoWls) /\ lastReload = -1 /\ ipc = -1 /\ ipe = -1 /\ bfc = -1 /\ cl = <<>>
         /\ adm = Each(<<>>) /\ refs = Each(<<>>)
 
 Up(f, i, v) == [f EXCEPT ![i] = v]
@@ -95,7 +100,8 @@ Binding(i, q) == {o \in ob[i] : o.from <= q.t0 /\ (o.perm \/ q.t1 <= o.to)}
 \* a clean-up pass of the protector was under way when the obligation arose ("lateClean")
 Cause(i, o) == LET late == \E x \in 1..Len(aU[i]) : aU[i][x] + cfg.aTol >= o.born
                    ovl  == Cardinality({x \in 1..Len(fs[i]) : fs[i][x].t0 <= o.born /\ fs[i][x].t1 >= o.f0}) >= 2
-                   cln  == \E x \in 1..Len(cl) : cl[x].t0 <= o.born /\ cl[x].t1 >= o.born
+                   cln  == \/ \E x \in 1..Len(cl) : cl[x].t0 <= o.born /\ cl[x].t1 >= o.born
+                           \/ (bfc >= 0 /\ bfc <= o.born)
                IN IF cln THEN "lateClean"
                   ELSE IF ovl /\ late THEN "overlapFail+lateUnban" ELSE IF late THEN "lateUnban"
                   ELSE IF ovl THEN "overlapFail" ELSE "plain"
@@ -113,6 +119,7 @@ NotBanned(i, q) ==
 BlCause(i, f, b, q) ==
   IF b.flt THEN "storageFault"
   ELSE IF \E x \in 1..Len(aL[i]) : aL[i][x] + cfg.aTol >= b.born THEN "lateUnbl"
+  ELSE IF b.cln THEN (IF lastReload > b.line THEN "cleanRace+reload" ELSE "cleanRace")
   ELSE IF \E g \in FORMS \ {f} : blo[i][g].k = "temp" /\ q.t1 >= blo[i][g].end THEN "shadowed"
   ELSE IF lastReload > b.line THEN "afterReload"
   ELSE "plain"
@@ -148,7 +155,7 @@ EndViol == UNION {(IF \A x \in 1..Len(refs[i]) : Justified(i, refs[i][x]) THEN {
 
 \* ---- events ----------------------------------------------------------------------------------
 TrCfg == /\ Is("Cfg") /\ cfg' = Ev /\ l' = l + 1
-         /\ UNCHANGED <<viol, fs, sf, lastSucc, lastMU, lastClean, ob, aU, aL, blo, wlst, lastReload, cl, adm, refs>>
+         /\ UNCHANGED <<viol, fs, sf, lastSucc, lastMU, lastClean, ob, aU, aL, blo, wlst, lastReload, ipc, ipe, bfc, cl, adm, refs>>
 
 TrHs ==
   /\ Is("Hs")
@@ -175,21 +182,21 @@ TrHs ==
         /\ lastSucc' = IF r = "ok" THEN Up(lastSucc, i, q.t1) ELSE lastSucc
         /\ adm' = Up(adm, i, a2)
         /\ refs' = IF r = "ban" THEN Up(refs, i, Append(refs[i], q)) ELSE refs
-  /\ l' = l + 1 /\ UNCHANGED <<cfg, lastMU, lastClean, aU, aL, blo, wlst, lastReload, cl>>
+  /\ l' = l + 1 /\ UNCHANGED <<cfg, lastMU, lastClean, aU, aL, blo, wlst, lastReload, ipc, ipe, bfc, cl>>
 
 TrQuery ==
   /\ Is("Query")
   /\ LET i == Ev.ip  q == Iv IN
      /\ viol' = viol \cup (IF ~Ev.bl THEN NotBlacklisted(i, q) ELSE {}) \cup (IF ~Ev.ban THEN NotBanned(i, q) ELSE {})
      /\ refs' = IF Ev.ban THEN Up(refs, i, Append(refs[i], q)) ELSE refs
-  /\ l' = l + 1 /\ UNCHANGED <<cfg, fs, sf, lastSucc, lastMU, lastClean, ob, aU, aL, blo, wlst, lastReload, cl, adm>>
+  /\ l' = l + 1 /\ UNCHANGED <<cfg, fs, sf, lastSucc, lastMU, lastClean, ob, aU, aL, blo, wlst, lastReload, ipc, ipe, bfc, cl, adm>>
 
 \* n IsAllowed look-ups in a row inside one bracket (the range scan follows Go's randomised map
 \* iteration: the same state is asked many times); no = how many of them did not refuse
 TrQueryN ==
   /\ Is("QueryN")
   /\ viol' = viol \cup (IF Ev.no > 0 THEN NotBlacklisted(Ev.ip, Iv) ELSE {})
-  /\ l' = l + 1 /\ UNCHANGED <<cfg, fs, sf, lastSucc, lastMU, lastClean, ob, aU, aL, blo, wlst, lastReload, cl, adm, refs>>
+  /\ l' = l + 1 /\ UNCHANGED <<cfg, fs, sf, lastSucc, lastMU, lastClean, ob, aU, aL, blo, wlst, lastReload, ipc, ipe, bfc, cl, adm, refs>>
 
 \* n AllowIP calls made at the same time (start barrier) by an address that had no bucket before,
 \* all inside one bracket; ok = how many were admitted
@@ -197,28 +204,29 @@ TrTakeBatch ==
   /\ Is("TakeBatch")
   /\ viol' = viol \cup (IF Ev.ok * 1000000 > cfg.burst * 1000000 + cfg.rate * 1000 * (Ev.t1 - Ev.t0) + cfg.slack * 1000
                         THEN {V("RateBound", "concurrentFirst")} ELSE {})
-  /\ l' = l + 1 /\ UNCHANGED <<cfg, fs, sf, lastSucc, lastMU, lastClean, ob, aU, aL, blo, wlst, lastReload, cl, adm, refs>>
+  /\ l' = l + 1 /\ UNCHANGED <<cfg, fs, sf, lastSucc, lastMU, lastClean, ob, aU, aL, blo, wlst, lastReload, ipc, ipe, bfc, cl, adm, refs>>
 
 TrTake ==
   /\ Is("Take")
   /\ adm' = IF Ev.ok THEN Up(adm, Ev.ip, Append(adm[Ev.ip], [t0 |-> Ev.t0, t1 |-> Ev.t1, how |-> "allowIP"])) ELSE adm
-  /\ l' = l + 1 /\ UNCHANGED <<viol, cfg, fs, sf, lastSucc, lastMU, lastClean, ob, aU, aL, blo, wlst, lastReload, cl, refs>>
+  /\ l' = l + 1 /\ UNCHANGED <<viol, cfg, fs, sf, lastSucc, lastMU, lastClean, ob, aU, aL, blo, wlst, lastReload, ipc, ipe, bfc, cl, refs>>
 
 TrAsync ==
   /\ Is("Async")
   /\ aU' = IF Ev.what = "unban" THEN Up(aU, Ev.ip, Append(aU[Ev.ip], Ev.t1)) ELSE aU
   /\ aL' = IF Ev.what = "unbl"  THEN Up(aL, Ev.ip, Append(aL[Ev.ip], Ev.t1)) ELSE aL
-  /\ l' = l + 1 /\ UNCHANGED <<viol, cfg, fs, sf, lastSucc, lastMU, lastClean, ob, blo, wlst, lastReload, cl, adm, refs>>
+  /\ l' = l + 1 /\ UNCHANGED <<viol, cfg, fs, sf, lastSucc, lastMU, lastClean, ob, blo, wlst, lastReload, ipc, ipe, bfc, cl, adm, refs>>
 
 TrMUnban == /\ Is("MUnban") /\ ob' = Up(ob, Ev.ip, {}) /\ lastMU' = Up(lastMU, Ev.ip, Ev.t1)
-            /\ l' = l + 1 /\ UNCHANGED <<viol, cfg, fs, sf, lastSucc, lastClean, aU, aL, blo, wlst, lastReload, cl, adm, refs>>
+            /\ l' = l + 1 /\ UNCHANGED <<viol, cfg, fs, sf, lastSucc, lastClean, aU, aL, blo, wlst, lastReload, ipc, ipe, bfc, cl, adm, refs>>
 
 \* A blacklist order given while the storage write failed (fault): whether the new entry took effect
 \* is the implementation's business, but a failed update never lifts what was in force - the demand
 \* becomes the weaker of the previous and the new order (none if there was no previous one).
 TrBlk == /\ Is("Blk")
-         /\ LET new == [k |-> IF Ev.perm THEN "perm" ELSE "temp", from |-> Ev.t1 + cfg.mS,
-                        to |-> Ev.t0 + cfg.bld - cfg.mE, born |-> Ev.t1, end |-> Ev.t1 + cfg.bld, line |-> l, flt |-> FALSE]
+         /\ LET d   == IF "dur" \in DOMAIN Ev /\ ~Ev.perm THEN Ev.dur ELSE cfg.bld       \* lifetime of this order
+                new == [k |-> IF Ev.perm THEN "perm" ELSE "temp", from |-> Ev.t1 + cfg.mS,
+                        to |-> Ev.t0 + d - cfg.mE, born |-> Ev.t1, end |-> Ev.t1 + d, line |-> l, flt |-> FALSE, cln |-> ipc >= 0 \/ ipe > Ev.t0 + 1]     \* a pass of the IP manager's clean-up overlaps the call (beyond the rounding of the two clocks)
                 old == blo[Ev.ip][Ev.form]
                 weak == IF old.k = "none" THEN old
                         ELSE IF new.k = "perm" THEN [old EXCEPT !.flt = TRUE]
@@ -227,11 +235,11 @@ TrBlk == /\ Is("Blk")
             IN blo' = IF Ev.form \in FORMS
                       THEN Up(blo, Ev.ip, [blo[Ev.ip] EXCEPT ![Ev.form] = IF "fault" \in DOMAIN Ev /\ Ev.fault THEN weak ELSE new])
                       ELSE blo
-         /\ l' = l + 1 /\ UNCHANGED <<viol, cfg, fs, sf, lastSucc, lastMU, lastClean, ob, aU, aL, wlst, lastReload, cl, adm, refs>>
+         /\ l' = l + 1 /\ UNCHANGED <<viol, cfg, fs, sf, lastSucc, lastMU, lastClean, ob, aU, aL, wlst, lastReload, ipc, ipe, bfc, cl, adm, refs>>
 
 TrMUnbl == /\ Is("MUnbl")
            /\ blo' = IF Ev.form \in FORMS THEN Up(blo, Ev.ip, [blo[Ev.ip] EXCEPT ![Ev.form] = NoBl]) ELSE blo
-           /\ l' = l + 1 /\ UNCHANGED <<viol, cfg, fs, sf, lastSucc, lastMU, lastClean, ob, aU, aL, wlst, lastReload, cl, adm, refs>>
+           /\ l' = l + 1 /\ UNCHANGED <<viol, cfg, fs, sf, lastSucc, lastMU, lastClean, ob, aU, aL, wlst, lastReload, ipc, ipe, bfc, cl, adm, refs>>
 
 \* whitelisting (either form) suspends the demand; when the last whitelist entry goes, it resumes for
 \* calls that begin after the removal returned
@@ -243,11 +251,11 @@ TrWl == /\ Is("Wl")
                         THEN Up(blo, Ev.ip, [f \in FORMS |-> IF blo[Ev.ip][f].from < Ev.t1 + cfg.mS
                                                               THEN [blo[Ev.ip][f] EXCEPT !.from = Ev.t1 + cfg.mS] ELSE blo[Ev.ip][f]])
                         ELSE blo
-        /\ l' = l + 1 /\ UNCHANGED <<viol, cfg, fs, sf, lastSucc, lastMU, lastClean, ob, aU, aL, lastReload, cl, adm, refs>>
+        /\ l' = l + 1 /\ UNCHANGED <<viol, cfg, fs, sf, lastSucc, lastMU, lastClean, ob, aU, aL, lastReload, ipc, ipe, bfc, cl, adm, refs>>
 
 \* the demands outlive the manager instance: nothing changes but the history shape
 TrReload == /\ Is("Reload") /\ lastReload' = l
-            /\ l' = l + 1 /\ UNCHANGED <<viol, cfg, fs, sf, lastSucc, lastMU, lastClean, ob, aU, aL, blo, wlst, cl, adm, refs>>
+            /\ l' = l + 1 /\ UNCHANGED <<viol, cfg, fs, sf, lastSucc, lastMU, lastClean, ob, aU, aL, blo, wlst, ipc, ipe, bfc, cl, adm, refs>>
 
 \* a clean-up run of the protector drops a failure record whose window is empty - and with it the
 \* lifetime count: unless some counted failure is certainly still inside the window, forget them
@@ -258,14 +266,23 @@ TrClean ==
            ELSE sf
   /\ lastClean' = IF Ev.what = "bf" THEN Each(Ev.t1) ELSE lastClean
   /\ cl' = IF Ev.what = "bf" THEN Append(cl, Iv) ELSE cl
+  /\ ipc' = IF Ev.what = "ip" THEN -1 ELSE ipc
+  /\ ipe' = IF Ev.what = "ip" THEN Ev.t1 ELSE ipe
+  /\ bfc' = IF Ev.what = "bf" /\ "part" \notin DOMAIN Ev THEN -1 ELSE bfc      \* (part: the pass goes on after its first section)
   /\ l' = l + 1 /\ UNCHANGED <<viol, cfg, fs, lastSucc, lastMU, ob, aU, aL, blo, wlst, lastReload, adm, refs>>
 
-TrTick == Is("Tick") /\ l' = l + 1 /\ UNCHANGED <<viol, cfg, fs, sf, lastSucc, lastMU, lastClean, ob, aU, aL, blo, wlst, lastReload, cl, adm, refs>>
+\* a clean-up pass begins (only used to name the history shape)
+TrCleanStart ==
+  /\ Is("CleanStart")
+  /\ ipc' = IF Ev.what = "ip" THEN Ev.t0 ELSE ipc
+  /\ l' = l + 1 /\ UNCHANGED <<viol, cfg, fs, sf, lastSucc, lastMU, lastClean, ob, aU, aL, blo, wlst, lastReload, ipe, bfc, cl, adm, refs>>
+
+TrTick == Is("Tick") /\ l' = l + 1 /\ UNCHANGED <<viol, cfg, fs, sf, lastSucc, lastMU, lastClean, ob, aU, aL, blo, wlst, lastReload, ipc, ipe, bfc, cl, adm, refs>>
 
 TrEnd == /\ Is("End")
          /\ PrintT("VERDICT " \o ToJson([tr |-> Ev.tr, viol |-> SetToSeq(viol \cup (IF cfg = NoCfg THEN {} ELSE EndViol))]))
          /\ l' = l + 1 /\ viol' = {} /\ Reset
 
-Next == TrTakeBatch \/ TrQueryN \/ TrReload \/ TrCfg \/ TrHs \/ TrQuery \/ TrTake \/ TrAsync \/ TrMUnban \/ TrBlk \/ TrMUnbl \/ TrWl \/ TrClean \/ TrTick \/ TrEnd
+Next == TrCleanStart \/ TrTakeBatch \/ TrQueryN \/ TrReload \/ TrCfg \/ TrHs \/ TrQuery \/ TrTake \/ TrAsync \/ TrMUnban \/ TrBlk \/ TrMUnbl \/ TrWl \/ TrClean \/ TrTick \/ TrEnd
 Spec == Init /\ [][Next]_vars
 =============================================================================
